@@ -108,7 +108,9 @@ def main(args):
                             model=coll, detail="%d SnakeWords" % n_names, replay=None if coll is None else {"reproduced": True, "inputs": coll}))
     # -- E1: the switch optimisation of Ok() only emits case labels the discriminant's C++ type can represent
     from vlib import pool
-    pool.run_targets(run, "contracts.gate", ["_get_switch_candidate", "_render_integer"])
+    pool.run_targets(run, "contracts.gate", ["_get_switch_candidate", "_render_integer", "_render_case_label"])
+    run.function("compiler.back_end.cpp.header_generator._render_case_label", "pyvc: the case label text is a function of the case value and the discriminant's type only (two names of one enum value give one label, so the "
+                 "text-keyed de-duplication of the Ok() switch never emits two labels of equal value)")
     run.function("compiler.back_end.cpp.header_generator._render_integer / _render_integer_for_expression",
                  "pyvc: for every integer in [-2^63, 2^64) the rendered C++ literal is well-formed (fits long long / unsigned long long, the minimum written as -9223372036854775807LL - 1), denotes the value, and is cast to a type that holds it")
     run.function("compiler.back_end.cpp.header_generator._get_switch_candidate", "pyvc: candidates are exactly `integer/enum field == constant` with the constant inside the discriminant's inferred bounds")
